@@ -103,6 +103,8 @@ def read_input(u, opts, infer):
                 for item in q2.split("&"):
                     k, eq, v = item.partition("=")
                     rec["query"].append((dec(k), dec(v) if eq else None))
+    rec = dict(rec)
+    rec["_scheme_relative"] = re.sub(r"[\x00-\x1f\x7f-\x9f]", "", u).strip().startswith("//")
     return rec, had
 
 
@@ -248,6 +250,11 @@ def judge(ctx, fn, infer, strip_item, u, opts, extra=None, count=True):
             ctx.count("scheme-kept")
             if rout["scheme"] != rin["scheme"]:
                 flag("scheme:changed", (rin["scheme"], rout["scheme"]))
+            if rin.get("_scheme_relative"):
+                # the (resolved) input is scheme-relative ('//host/...'): with strip_protocol off that is what must be preserved, not a scheme made up
+                flag("scheme:made-up-for-a-scheme-relative-url", out)
+        elif rin.get("_scheme_relative"):
+            ctx.count("scheme-relative-kept")
     judge_deletion = not (extra.get("platform_aware") and platform_host(rin["host"]))
     # the host as WRITTEN in the result is lower-cased and IDNA-decoded, label by label (the reader above compares up to that spelling)
     try:
@@ -422,6 +429,8 @@ DIRECTED = [
     "http://example.com/x?source=twit&platform=suite&mode=&output=am&fromref=twitt&sns=t&_ss=&marfeeltn=mp&platform&mode&ref=twitterx&ref=&ref&s=123&s=ab&s=&s&m=2&m=&spref=x&outputtype=am&outputType=amp",
     "http://example.com/x?si=abc&t=42&ab_channel=z&_rdr=1&_rdc=2&cbrd=1&ucbcb=1", "http://notyoutube.com.example.org/watch?v=aBcDeFgHiJk&t=42&si=x", "https://www.youtube.com/results?search_query=cats&t=42&si=x&hl=fr",
     "https://www.facebook.com/x/y?_rdr=1&t=42", "http://example.com/x?amp&amp_js_v=0.1&amp=1&AMP_x=2&usqp=mq&id=1",
+    "http://straße.de/x", "http://STRASSE.de/ß", "http://ǅ.example.com/", "http://ﬁn.example.org/x", "http://İstanbul.example.com/",
+    "x.cdn.ampproject.org/c/s/mashable.com/2018/a", "a.com/r?url=http%3A%2F%2Fb.org%2Fp", "//a.com/r?url=https%3A%2F%2Fb.org%2Fp&x=1", "a.com/r?u=%2Fp",
     "http://www./path/x", "http://m./abc", "http://amp./x/y", "http://mobile./", "http://www.m./x", "http://www/x", "http://amp-x./q?a=1",
     "http://bücher.xn--p1ai/x", "http://xn--bcher-kva.рф/x?a=1", "http://WWW.Bücher.XN--P1AI/x", "http://blog.xn--bcher-kva.de/", "http://amp-news.xn--tlrama-bvab.fr/a",
     "http://example.com/a/index.tar.gz", "http://example.com/a/default.min.js", "http://example.com/a/index.foo.bar/", "http://example.com/a/.index", "http://example.com/a/index.", "http://example.com/?id=&id&ID=1&Id=2", "http://example.com/?q=a+b&q=a%20b&%71=c",
